@@ -70,14 +70,15 @@ type PyItem struct {
 }
 
 type PyModule struct {
-	File      string
-	Items     []PyItem
-	Indent    string
-	CRLF      bool
-	NoFinalNL bool
-	Large     bool
-	Flat      bool // large module made of one-line declarations only
-	Text      string
+	File          string
+	Items         []PyItem
+	Indent        string
+	CRLF          bool
+	BlankInBlocks bool // empty / blank-only lines between the statements of indented blocks
+	NoFinalNL     bool
+	Large         bool
+	Flat          bool // large module made of one-line declarations only
+	Text          string
 	// LexEvents = logical lines + INDENTs + DEDENTs: what coca's Python lexer has to queue (see DESIGN §2 on
 	// generator rejects; the shipped lexer helper corrupts its token queue beyond 31 such events).
 	LexEvents int
@@ -384,7 +385,12 @@ func GenPy(r *run.Rand, file string, large bool, idBase int) *PyModule {
 	g := &pyGen{r: r, nm: &namer{r: r, n: idBase}, noPinnedForms: large}
 	m := &PyModule{File: file, Large: large}
 	m.Indent = r.Pick([]string{"    ", "    ", "    ", "  ", "\t"})
-	m.CRLF = r.Chance(1, 20)
+	m.CRLF = r.Chance(1, 8)
+	// blank lines inside indented blocks (between the statements of a body, between class members), some of them
+	// consisting of blanks only
+	m.BlankInBlocks = r.Chance(1, 3)
+	// CRLF modules carry a signature suffix of their own: keep the two pinned import forms out of them
+	g.noPinnedForms = large || m.CRLF
 	m.NoFinalNL = r.Chance(1, 8)
 
 	if large && r.Bool() {
@@ -560,6 +566,20 @@ func (m *PyModule) trimOnce() bool {
 type pyOut struct {
 	sb     strings.Builder
 	indent string
+	blanks bool // write blank lines inside blocks
+	nblank int
+}
+
+// blank writes an empty line inside a block (every third one consists of the block's indentation only).
+func (o *pyOut) blank(level int) {
+	if !o.blanks {
+		return
+	}
+	o.nblank++
+	if o.nblank%3 == 0 {
+		o.sb.WriteString(strings.Repeat(o.indent, level))
+	}
+	o.sb.WriteString("\n")
 }
 
 func (o *pyOut) line(level int, s string) {
@@ -622,7 +642,10 @@ func (o *pyOut) fn(level int, f *PyFunc) {
 		return
 	}
 	o.line(level, head)
-	for _, s := range f.Body {
+	for i, s := range f.Body {
+		if i > 0 {
+			o.blank(level + 1)
+		}
 		if s.Def != nil {
 			o.fn(level+1, s.Def)
 		} else {
@@ -647,14 +670,26 @@ func (o *pyOut) class(level int, c *PyClass) {
 			}
 			o.fn(level+1, it.Method)
 		} else {
+			if !first {
+				o.blank(level + 1)
+			}
 			o.line(level+1, it.Text)
 		}
 		first = false
 	}
 }
 
+// CanonicalText is the same module in the plainest layout (LF line ends, 4 blanks, final newline, no blank lines
+// inside blocks): the same declarations, only the layout differs from Text.
+func (m *PyModule) CanonicalText() string {
+	c := *m
+	c.Indent, c.CRLF, c.NoFinalNL, c.BlankInBlocks = "    ", false, false, false
+	c.render()
+	return c.Text
+}
+
 func (m *PyModule) render() {
-	o := &pyOut{indent: m.Indent}
+	o := &pyOut{indent: m.Indent, blanks: m.BlankInBlocks}
 	for _, it := range m.Items {
 		for i := 0; i < it.Blank; i++ {
 			o.sb.WriteString("\n")
@@ -764,7 +799,7 @@ func pyLexEvents(t string) int {
 // Shape is a structural description without the random names.
 func (m *PyModule) Shape() string {
 	var sb strings.Builder
-	fmt.Fprintf(&sb, "ind%q crlf%v nl%v flat%v|", m.Indent, m.CRLF, m.NoFinalNL, m.Flat)
+	fmt.Fprintf(&sb, "ind%q crlf%v nl%v flat%v blank%v|", m.Indent, m.CRLF, m.NoFinalNL, m.Flat, m.BlankInBlocks)
 	var fn func(f *PyFunc)
 	fn = func(f *PyFunc) {
 		fmt.Fprintf(&sb, "f(d%d a%v o%v p%d:", len(f.Decos), f.Async, f.OneLine, strings.Count(f.Params, ","))
